@@ -76,10 +76,57 @@ where
         let b = json_data.b;
         let cones = json_data.cones;
         let settings = settings.unwrap_or(json_data.settings);
+
+        // the solver constructor panics on malformed problem data, so
+        // report inconsistent file contents as an error instead
+        check_json_data(&P, &q, &A, &b, &cones, &settings)?;
+
         let solver = Self::new(&P, &q, &A, &b, &cones, settings);
 
         Ok(solver)
     }
+}
+
+fn check_json_data<T: FloatT>(
+    P: &CscMatrix<T>,
+    q: &[T],
+    A: &CscMatrix<T>,
+    b: &[T],
+    cones: &[SupportedConeT<T>],
+    settings: &DefaultSettings<T>,
+) -> Result<(), io::Error> {
+    let invalid = |msg: String| io::Error::new(io::ErrorKind::InvalidData, msg);
+
+    P.check_format().map_err(|e| invalid(format!("P : {}", e)))?;
+    A.check_format().map_err(|e| invalid(format!("A : {}", e)))?;
+
+    let conedim = cones.iter().fold(0, |acc, cone| acc + cone.nvars());
+    if b.len() != A.nrows()
+        || conedim != b.len()
+        || q.len() != A.ncols()
+        || q.len() != P.ncols()
+        || !P.is_square()
+    {
+        return Err(invalid("inconsistent problem dimensions".to_string()));
+    }
+
+    for cone in cones {
+        let isvalid = match cone {
+            SupportedConeT::PowerConeT(α) => *α > T::zero() && *α < T::one(),
+            SupportedConeT::GenPowerConeT(α, _) => {
+                α.iter().all(|r| *r > T::zero())
+                    && (T::one() - α.sum()).abs() < (T::epsilon() * α.len().as_T() * (0.5).as_T())
+            }
+            _ => true,
+        };
+        if !isvalid {
+            return Err(invalid("invalid cone parameter".to_string()));
+        }
+    }
+
+    settings.validate().map_err(invalid)?;
+
+    Ok(())
 }
 
 fn sanitize_settings<T: FloatT>(settings: &mut DefaultSettings<T>) {
